@@ -162,25 +162,23 @@ Proof.
   destruct n as [k x p]; destruct k; simpl; rewrite ?IH; reflexivity.
 Qed.
 
-Lemma sle_cons2 : forall n m t,
-  strip_line_ends (n :: m :: t)
-  = (if is_text n && is_break m then rstrip_node n else n) :: strip_line_ends (m :: t).
+Lemma sle_cons2 : forall n t,
+  strip_line_ends (n :: t)
+  = (if is_text n && next_plain_is_sep t then rstrip_node n else n) :: strip_line_ends t.
 Proof. reflexivity. Qed.
 
 Lemma strip_line_ends_kinds : forall l, map i_kind (strip_line_ends l) = map i_kind l.
 Proof.
-  induction l as [|n t IH]; [reflexivity|]. destruct t as [|m t'].
-  - simpl. destruct (is_text n); reflexivity.
-  - rewrite sle_cons2, map_cons, IH. rewrite (map_cons i_kind n). f_equal.
-    destruct (is_text n && is_break m); reflexivity.
+  induction l as [|n t IH]; [reflexivity|].
+  rewrite sle_cons2, map_cons, IH. rewrite (map_cons i_kind n). f_equal.
+  destruct (is_text n && next_plain_is_sep t); reflexivity.
 Qed.
 
 Lemma strip_line_ends_pos : forall l, map i_pos (strip_line_ends l) = map i_pos l.
 Proof.
-  induction l as [|n t IH]; [reflexivity|]. destruct t as [|m t'].
-  - simpl. destruct (is_text n); reflexivity.
-  - rewrite sle_cons2, map_cons, IH. rewrite (map_cons i_pos n). f_equal.
-    destruct (is_text n && is_break m); reflexivity.
+  induction l as [|n t IH]; [reflexivity|].
+  rewrite sle_cons2, map_cons, IH. rewrite (map_cons i_pos n). f_equal.
+  destruct (is_text n && next_plain_is_sep t); reflexivity.
 Qed.
 
 Theorem italics_balanced : forall l, chk false (format_italics l) = true.
@@ -348,10 +346,9 @@ Proof. reflexivity. Qed.
 Lemma strip_line_ends_texts : forall l,
   Forall2 (fun a b => i_text b = i_text a \/ i_text b = rstrip (i_text a)) l (strip_line_ends l).
 Proof.
-  induction l as [|n t IH]; [constructor|]. destruct t as [|m t'].
-  - simpl. destruct (is_text n); (constructor; [simpl; auto|constructor]).
-  - rewrite sle_cons2. constructor; [|exact IH].
-    destruct (is_text n && is_break m); simpl; auto.
+  induction l as [|n t IH]; [constructor|].
+  rewrite sle_cons2. constructor; [|exact IH].
+  destruct (is_text n && next_plain_is_sep t); simpl; auto.
 Qed.
 
 Theorem strip_line_ends_shape : forall l, map i_kind (strip_line_ends l) = map i_kind l /\ map i_pos (strip_line_ends l) = map i_pos l /\
@@ -503,13 +500,11 @@ Qed.
 
 Lemma strip_line_ends_nonspace : forall l, nonspace (txt (strip_line_ends l)) = nonspace (txt l).
 Proof.
-  induction l as [|n t IH]; [reflexivity|]. destruct t as [|m t'].
-  - simpl. destruct (is_text n); [|reflexivity].
-    unfold txt. simpl. rewrite !app_nil_r. apply nonspace_rstrip.
-  - rewrite sle_cons2. unfold txt in *.
-    rewrite map_cons, concat_cons, nonspace_app, IH.
-    rewrite (map_cons i_text n), concat_cons, nonspace_app. f_equal.
-    destruct (is_text n && is_break m); [|reflexivity]. simpl. apply nonspace_rstrip.
+  induction l as [|n t IH]; [reflexivity|].
+  rewrite sle_cons2. unfold txt in *.
+  rewrite map_cons, concat_cons, nonspace_app, IH.
+  rewrite (map_cons i_text n), concat_cons, nonspace_app. f_equal.
+  destruct (is_text n && next_plain_is_sep t); [|reflexivity]. simpl. apply nonspace_rstrip.
 Qed.
 
 (* original statement (false without wf_nodes, see format_italics_nonspace_counterexample):
